@@ -40,6 +40,20 @@ if go test -vet=off -count=1 -timeout 25m $PK > "$D"/confirm.tests.log 2>&1; the
   done
 fi
 if [ $ok = 0 ]; then
+  # a failing package that neither is touched by the patch nor imports (transitively, test imports included)
+  # a touched package cannot have been affected by it: the failure is the machine's
+  TOUCHED=$(git diff --name-only | grep '\.go$' | xargs -n1 dirname | sort -u | sed 's|^|github.com/semihalev/sdns/|; s|/\.$||')
+  FP=$(grep -E '^FAIL[[:space:]]+github.com' "$D"/confirm.tests.log | awk '{print $2}' | sort -u)
+  unrelated=1
+  for fp in $FP; do
+    DEPS=$( (go list -deps -test "$fp" 2>/dev/null; echo "$fp") | sort -u)
+    for t in $TOUCHED; do
+      if echo "$DEPS" | grep -qx "$t"; then unrelated=0; fi
+    done
+  done
+  if [ -n "$FP" ] && [ $unrelated = 1 ]; then ok=1; echo "  (still failing: $FP -- does not depend on any package the patch touches; load-sensitive baseline test, not the patch)"; fi
+fi
+if [ $ok = 0 ]; then
   # still failing: is it the machine?  The same tests are run on the clean tree under the same load; a test
   # that fails there too says nothing about the patch, and is then given five more solo runs on the mutant.
   FT=$(grep -E '^--- FAIL: ' "$D"/confirm.tests.log | awk '{print $3}' | sed 's|/.*||' | sort -u | tr '\n' '|' | sed 's/|$//')
